@@ -38,14 +38,16 @@ Fixpoint total_words (fs : list frame_spec) (extra : Z) : Z :=
 (* preconditions of a scan-findable stack: every return address within the window of its callee
    (the larger one for the context frame), acceptable to instruction_seems_valid, >= the nullish cut-off;
    padding words (0) are not acceptable; the whole stack below 2^W *)
-Fixpoint scan_gaps_ok (a : arch) (iv : Z -> bool) (win : Z) (fs : list frame_spec) : bool :=
+(* [lo] words are skipped before the scan starts (mips32: MIN_ARGS words for every frame but the first) *)
+Definition scan_skip_words (a : arch) : Z := a_scan_skip a / a_pw a.
+Fixpoint scan_gaps_ok (a : arch) (iv : Z -> bool) (lo win : Z) (fs : list frame_spec) : bool :=
   match fs with
   | [] => true
-  | f :: t => (0 <=? fs_gap f) && (fs_gap f <? win) && (a_cutoff a <=? fs_ra f) && (fs_ra f <? 2 ^ a_bits a) &&
-              a_pre_ok a (fs_ra f) && iv (fs_ra f) && scan_gaps_ok a iv (a_scan_default a) t
+  | f :: t => (lo <=? fs_gap f) && (fs_gap f - lo <? win) && (a_cutoff a <=? fs_ra f) && (fs_ra f <? 2 ^ a_bits a) &&
+              a_pre_ok a (fs_ra f) && iv (fs_ra f) && scan_gaps_ok a iv (scan_skip_words a) (a_scan_default a) t
   end.
 Definition scan_wf_layout (a : arch) (iv : Z -> bool) (base : Z) (fs : list frame_spec) : bool :=
-  scan_gaps_ok a iv (a_scan_context a) fs && negb (a_pre_ok a 0 && iv 0) &&
+  scan_gaps_ok a iv 0 (a_scan_context a) fs && negb (a_pre_ok a 0 && iv 0) &&
   (0 <? base) && (base + a_pw a * total_words fs 0 <? 2 ^ a_bits a).
 Definition scan_layout (a : arch) (base ip0 : Z) (fs : list frame_spec) : regs * validity * memory :=
   (ctx_regs ip0 base 0, plain_valid a, mk_mem a base (scan_words fs)).
@@ -82,3 +84,40 @@ Fixpoint cfi_gaps_ok (a : arch) (fs : list frame_spec) : bool :=
   end.
 Definition cfi_wf_layout (a : arch) (base : Z) (fs : list frame_spec) : bool :=
   cfi_gaps_ok a fs && (0 <? base) && (base + a_pw a * total_words fs 0 <? 2 ^ a_bits a).
+
+(* ---- frame-pointer chains: [saved frame pointer][return address][gap words of 0 = the caller's locals] per call,
+   one trailing readable word; a saved frame pointer is the address of the next record (the last one: of the
+   trailing word).  The context frame has fp = sp = base. *)
+Fixpoint fp_body (a : arch) (base off : Z) (fs : list frame_spec) : list Z :=
+  match fs with
+  | [] => []
+  | f :: t => (base + a_pw a * (off + 2 + fs_gap f)) :: fs_ra f :: zeros (fs_gap f) ++ fp_body a base (off + 2 + fs_gap f) t
+  end.
+Definition fp_words (a : arch) (base : Z) (fs : list frame_spec) : list Z := fp_body a base 0 fs ++ [0].
+(* the validity set a frame-pointer frame carries (x86/amd64: ip, sp, fp; arm/arm64: pc, fp, sp) *)
+Definition fp_valid (a : arch) : list Z :=
+  match a_fp a with
+  | FpArm | FpArm64 => [a_ip_name a; a_fp_name a; a_sp_name a]
+  | _ => [a_ip_name a; a_sp_name a; a_fp_name a]
+  end.
+Definition fp_frame (a : arch) (sp ra fp : Z) : frame :=
+  {| f_instr := ra - a_adj a; f_resume := ra; f_trust := TFramePointer;
+     f_regs := ctx_regs ra sp fp; f_valid := VSome (fp_valid a) |}.
+Fixpoint fp_chain (a : arch) (base off : Z) (fs : list frame_spec) : list frame :=
+  match fs with
+  | [] => []
+  | f :: t => fp_frame a (base + a_pw a * (off + 2)) (fs_ra f) (base + a_pw a * (off + 2 + fs_gap f))
+              :: fp_chain a base (off + 2 + fs_gap f) t
+  end.
+Fixpoint fp_gaps_ok (a : arch) (fs : list frame_spec) : bool :=
+  match fs with
+  | [] => true
+  | f :: t => (0 <=? fs_gap f) && (a_cutoff a <=? fs_ra f) && (fs_ra f <? 2 ^ a_bits a) && a_canon_fp a (fs_ra f) &&
+              (negb (a_strip a) || (fs_ra f <? 2 ^ 47)) && fp_gaps_ok a t
+  end.
+Definition fp_wf_layout (a : arch) (iv : Z -> bool) (base : Z) (fs : list frame_spec) : bool :=
+  fp_gaps_ok a fs && negb (a_pre_ok a 0 && iv 0) && (0 <? base) &&
+  (base + a_pw a * (total_words fs 1 + 8) <? 2 ^ a_bits a) &&
+  (negb (a_strip a) || (base + a_pw a * (total_words fs 1 + 8) <? 2 ^ 47)).
+Definition fp_layout (a : arch) (base ip0 : Z) (fs : list frame_spec) : regs * validity * memory :=
+  (ctx_regs ip0 base base, VAll, mk_mem a base (fp_words a base fs)).
